@@ -718,6 +718,8 @@ func (s *sim) deliver(it item) bool {
 		}
 		if err := rb.Votes.SetPeerMaj23(it.r, typ, a.peer, bid); err != nil {
 			s.env.Count("probe.maj23_claim_refused")
+		} else {
+			s.mon.onMaj23Claim(b, it.h, it.r, it.typ, bid)
 		}
 		s.claimed[fmt.Sprintf("%d/%d>%d/%d/%d/%d", b.inc, a.idx, b.idx, it.h, it.r, it.typ)] = bidStr(bid)
 	case "cvote":
